@@ -51,14 +51,29 @@ def gen(rng, tier):
         if kind == 'coring':
             labs, _ = G.alphabet(rng, k=rng.randint(2, 4), kind=rng.choice(['zero', 'one', 'gapped']))
             traj = G.traj(rng, labs, n, sticky=0.85)
-            yield {'k': kind, 'traj': traj, 'lims': lims, 'tcor': rng.choice([1, 2, 3, 5]), 'prelims': pre}
+            tcor = rng.choice([1, 2, 3, 5])
+            if lims is not None and len(lims) >= 2 and rng.random() < 0.3:
+                # one trajectory exactly tcor frames long and constant (a single valid core)
+                j = rng.randrange(len(lims))
+                start = sum(lims[:j])
+                extra = tcor - lims[j]
+                if extra > 0:
+                    traj = traj[:start] + [traj[start]] * extra + traj[start:]
+                    lims = lims[:j] + [tcor] + lims[j + 1:]
+                    traj[start:start + tcor] = [traj[start]] * tcor
+                else:
+                    lims = lims[:j] + [tcor, lims[j] - tcor] + lims[j + 1:] if lims[j] > tcor else lims
+                    traj[start:start + tcor] = [traj[start]] * tcor
+                pre = None
+            yield {'k': kind, 'traj': traj, 'lims': lims, 'tcor': tcor, 'prelims': pre}
         elif kind == 'filter':
             nc = rng.randint(2, 4) if tiny else rng.randint(1, 4)
             data = [[round(rng.uniform(-9, 9), 3) for _ in range(nc)] for _ in range(n)]
             yield {'k': kind, 'data': data, 'lims': lims, 'sigma': rng.choice([1.0, 1.5, 2.0, 4.0]), 'prelims': pre}
         else:
-            t1 = G.traj(rng, [1, 2, 3], n, sticky=0.7)
-            t2 = [v if rng.random() < 0.8 else rng.choice([4, 5, 6]) for v in t1]
+            labs1 = rng.choice([[1, 2, 3], [1, 2, 3], [1, 5, 65537], [-32768, 0, 32768], [7, 7 + 2**16, 7 + 2**17]])
+            t1 = G.traj(rng, labs1, n, sticky=0.7)
+            t2 = [labs1.index(v) + 1 if rng.random() < 0.8 else rng.choice([4, 5, 6]) for v in t1]
             yield {'k': kind, 't1': t1, 't2': t2, 'method': rng.choice(['symmetric', 'directed'])}
 
 
